@@ -229,6 +229,82 @@ def probes(ctx):
         rel = np.linalg.norm(b - A @ x) / np.linalg.norm(b)
         if not rel <= 1e-8 * 1.01:
             ctx.fail('blackbox/rhs-units/tolerance-not-met', 'b of size 1e%d: relative residual %.3g > 1e-8' % (ex, rel), case)
+    # 2b. a user callback changes nothing: same iterate, same status with and without it (native accelerators)
+    for name in ('cg', 'cr', 'gmres', 'gmres_mgs', 'gmres_householder', 'bicgstab', 'fgmres', 'cgnr', 'cgne', 'steepest_descent', 'minimal_residual'):
+        for tol_ in (1e-8,):
+            case = dict(probe='callback-neutral', accel=name, tol=tol_)
+            ctx.mark(case)
+            try:
+                with warnings.catch_warnings():
+                    warnings.simplefilter('ignore')
+                    xa, ia = ml.solve(b0, tol=tol_, maxiter=40, accel=name, return_info=True)
+                    seen_ = []
+                    xb, ib = ml.solve(b0, tol=tol_, maxiter=40, accel=name, return_info=True, callback=lambda v: seen_.append(1))
+            except Exception as e:   # noqa
+                ctx.fail('accel=%s/callback/raises' % name, repr(e), case)
+                continue
+            ctx.case(('callback-neutral', name), True)
+            ctx.count('accel-callback:' + name)
+            if ia != ib or np.linalg.norm(xa - xb) > 1e-9 * (1 + np.linalg.norm(xa)):
+                ctx.fail('accel=%s/callback-changes-result' % name, 'with a callback: status %r, without: %r; iterates differ by %.3g (true |r|/|b| %.3g vs %.3g)'
+                         % (ib, ia, np.linalg.norm(xa - xb), np.linalg.norm(b0 - A @ xb) / np.linalg.norm(b0), np.linalg.norm(b0 - A @ xa) / np.linalg.norm(b0)), case)
+    # 2c. conjugate gradients on hierarchies WITHOUT symmetric smoothing (a warning is all the caller gets): status 0 still means
+    #     CG's own rule |b - A x| < tol |b|, and the history holds those norms
+    hs = {'rs/2-pre-1-post-gs': lambda: pyamg.ruge_stuben_solver(A, presmoother=('gauss_seidel', {'sweep': 'symmetric', 'iterations': 2}),
+                                                                 postsmoother=('gauss_seidel', {'sweep': 'symmetric', 'iterations': 1}), max_coarse=10),
+          'rs/jacobi-pre-gs-post': lambda: pyamg.ruge_stuben_solver(A, presmoother='jacobi', postsmoother='gauss_seidel', max_coarse=10),
+          'sa/forward-forward-gs': lambda: pyamg.smoothed_aggregation_solver(A, presmoother=('gauss_seidel', {'sweep': 'forward'}),
+                                                                             postsmoother=('gauss_seidel', {'sweep': 'forward'}), max_coarse=10),
+          'air/default': lambda: pyamg.air_solver(A, max_coarse=10)}
+    for hname, hf in hs.items():
+        np.random.seed(ctx.seed)
+        try:
+            mh = hf()
+        except Exception:   # noqa
+            continue
+        for cyc in ('V', 'W'):
+            case = dict(probe='cg-on-nonsymmetric-smoothing', hierarchy=hname, cycle=cyc, tol=1e-8)
+            ctx.mark(case)
+            res = []
+            try:
+                with warnings.catch_warnings():
+                    warnings.simplefilter('ignore')
+                    x, info = mh.solve(b0, accel='cg', cycle=cyc, tol=1e-8, maxiter=60, residuals=res, return_info=True)
+            except Exception as e:   # noqa
+                ctx.fail('accel=cg/nonsymmetric-smoothing/raises', repr(e), case)
+                continue
+            ctx.case(('cg-nonsym-smoothing', hname, cyc), True)
+            ctx.count('accel-cg-nonsymmetric-smoothing')
+            rel = np.linalg.norm(b0 - A @ x) / np.linalg.norm(b0)
+            if info == 0 and not rel < 1e-8 * 1.01:
+                ctx.fail('accel=cg/nonsymmetric-smoothing/status0-not-converged', '%s: status 0 but |b - A x|/|b| = %.3g >= tol' % (hname, rel), case)
+            if res and np.all(np.isfinite(x)) and abs(res[-1] - np.linalg.norm(b0 - A @ x)) > 1e-3 * max(np.linalg.norm(b0 - A @ x), 1e-12 * np.linalg.norm(b0)):
+                ctx.fail('accel=cg/nonsymmetric-smoothing/history', '%s: last history entry %.3g, |b - A x| = %.3g' % (hname, res[-1], np.linalg.norm(b0 - A @ x)), case)
+    # 2d. the black box on two DIFFERENT matrices one after the other (same shape, same number of entries, same sum of entries),
+    #     and with its default verbosity
+    An1 = hier.nonsym_matrix(12)
+    An2 = sp.csr_array(An1.T)
+    bn = np.array([rng.uniform(-1, 1) for _ in range(An1.shape[0])])
+    import io
+    import contextlib
+    for tag, seq in (('A-then-A^T', (An1, An2)), ('A^T-then-A', (An2, An1))):
+        for verb in (False, True):
+            case = dict(probe='blackbox-sequence', sequence=tag, verb=verb)
+            ctx.mark(case)
+            try:
+                with warnings.catch_warnings(), contextlib.redirect_stdout(io.StringIO()):
+                    warnings.simplefilter('ignore')
+                    np.random.seed(ctx.seed + 9)
+                    xs_ = [pyamg.solve(M_, bn, tol=1e-8, **({} if verb else {'verb': False})) for M_ in seq]
+            except Exception as e:   # noqa
+                ctx.fail('blackbox/sequence/raises', repr(e), case)
+                continue
+            ctx.case(('blackbox-sequence', tag, verb), True)
+            ctx.count('blackbox:sequence')
+            for k_, (M_, x_) in enumerate(zip(seq, xs_)):
+                rel = np.linalg.norm(bn - M_ @ np.ravel(x_)) / np.linalg.norm(bn)
+                if not rel <= 1e-5:
+                    ctx.fail('blackbox/sequence/wrong-system', 'call %d of %s (verb=%s): |b - A x|/|b| = %.3g for the matrix of THAT call' % (k_ + 1, tag, verb, rel), case)
     # 3. flexible GMRES (right preconditioning: its criterion is the TRUE residual): status 0 must survive recomputation on a
     #    problem where the Givens estimate drifts below the true residual
     for N in (3000, 5000):
